@@ -69,7 +69,35 @@ type ProposeIn struct {
 	UnblindAll   bool        `json:"unblind_all"`
 	UnblindOK    bool        `json:"unblind_ok"`
 	SubmitOK     bool        `json:"submit_ok"`
-	Trace        bool        `json:"trace_log,omitempty"`
+	// UnblindFailures: how many calls every relay first answers 503 (a failure proposeBlock's unblinding
+	// loop retries, three calls in all) before it gives its final answer (the payload or 400).
+	UnblindFailures int `json:"unblind_failures,omitempty"`
+	// Then: what every other provider answers from its second call within the operation on
+	// ("" the same again | flip: a failure becomes a success and a success a failure | nil: an
+	// error-free answer that carries nothing).  The code asks each of them once per proposal.
+	Then  string `json:"then,omitempty"`
+	Trace bool   `json:"trace_log,omitempty"`
+}
+
+// again counts the calls of one provider method within a case and reports (from the second call on)
+// what the script says about later calls.
+type again struct {
+	mu   sync.Mutex
+	then string
+	n    map[string]int
+}
+
+func (a *again) call(key string) (n int, then string) {
+	a.mu.Lock()
+	defer a.mu.Unlock()
+	if a.n == nil {
+		a.n = map[string]int{}
+	}
+	a.n[key]++
+	if a.n[key] > 1 {
+		return a.n[key], a.then
+	}
+	return 1, ""
 }
 
 // ---------------------------------------------------------------------------------------------
@@ -104,6 +132,7 @@ type p1relay struct {
 	log *p1log
 	// first is the id of the relay that returns the payload when UnblindOK
 	first func() uint64
+	sc    *again
 }
 
 func (r *p1relay) Name() string              { return fmt.Sprintf("relay-%d", r.id) }
@@ -115,7 +144,7 @@ func (r *p1relay) BuilderBid(context.Context, *builderapi.BuilderBidOpts) (*buil
 
 type p1unblinder struct{ *p1relay }
 
-func (r p1unblinder) UnblindProposal(_ context.Context, opts *builderapi.UnblindProposalOpts) (*builderapi.Response[*api.VersionedSignedProposal], error) {
+func (r p1unblinder) UnblindProposal(ctx context.Context, opts *builderapi.UnblindProposalOpts) (*builderapi.Response[*api.VersionedSignedProposal], error) {
 	r.log.mu.Lock()
 	already := false
 	for _, x := range r.log.unblind {
@@ -127,6 +156,12 @@ func (r p1unblinder) UnblindProposal(_ context.Context, opts *builderapi.Unblind
 		r.log.unblind = append(r.log.unblind, r.id)
 	}
 	r.log.mu.Unlock()
+	if err := ctx.Err(); err != nil {
+		return nil, err
+	}
+	if n, _ := r.sc.call(fmt.Sprintf("unblind-%d", r.id)); n <= r.in.UnblindFailures {
+		return nil, errors.New("POST failed with status 503: scripted transient failure")
+	}
 	if r.in.UnblindOK && r.first() == r.id {
 		res := &api.VersionedSignedProposal{Version: opts.Proposal.Version}
 		switch opts.Proposal.Version {
@@ -148,18 +183,36 @@ type p1env struct {
 	in  *ProposeIn
 	log *p1log
 	res *blockauctioneer.Results
+	sc  *again
 }
 
 func (e *p1env) Graffiti(context.Context, phase0.Slot, phase0.ValidatorIndex) ([]byte, error) {
-	if e.in.Graffiti == "err" {
+	fail := e.in.Graffiti == "err"
+	switch _, then := e.sc.call("graffiti"); then {
+	case "flip":
+		fail = !fail
+	case "nil":
+		return nil, nil
+	}
+	if fail {
 		return nil, errors.New("scripted graffiti failure")
 	}
 	return append([]byte{}, e.in.GraffitiData...), nil
 }
 
 func (e *p1env) AuctionBlock(context.Context, phase0.Slot, phase0.Hash32, phase0.BLSPubKey) (*blockauctioneer.Results, error) {
-	if e.in.Auction == "err" {
+	fail := e.in.Auction == "err"
+	switch _, then := e.sc.call("auction"); then {
+	case "flip":
+		fail = !fail
+	case "nil":
+		return nil, nil
+	}
+	if fail {
 		return nil, errors.New("scripted auction failure")
+	}
+	if e.res == nil {
+		return &blockauctioneer.Results{Participation: map[string]*blockauctioneer.Participation{}}, nil
 	}
 	return e.res, nil
 }
@@ -179,7 +232,11 @@ func (e *p1env) SignRANDAOReveal(context.Context, e2wtypes.Account, phase0.Slot)
 	return phase0.BLSSignature{1}, nil
 }
 func (e *p1env) SignBeaconBlockProposal(context.Context, e2wtypes.Account, phase0.Slot, phase0.ValidatorIndex, phase0.Root, phase0.Root, phase0.Root) (phase0.BLSSignature, error) {
-	if !e.in.SignOK {
+	ok := e.in.SignOK
+	if _, then := e.sc.call("sign"); then != "" {
+		ok = !ok
+	}
+	if !ok {
 		return phase0.BLSSignature{}, errors.New("scripted signing failure")
 	}
 	e.log.mu.Lock()
@@ -201,7 +258,11 @@ func (e *p1env) SubmitProposal(context.Context, *api.VersionedSignedProposal) er
 	e.log.mu.Lock()
 	e.log.submitted = true
 	e.log.mu.Unlock()
-	if !e.in.SubmitOK {
+	ok := e.in.SubmitOK
+	if _, then := e.sc.call("submit"); then != "" {
+		ok = !ok
+	}
+	if !ok {
 		return errors.New("scripted submission failure")
 	}
 	return nil
@@ -268,17 +329,35 @@ func (e *p1env) Proposal(_ context.Context, opts *api.ProposalOpts) (*api.Respon
 	e.log.mu.Lock()
 	e.log.graffiti = append([]byte{}, opts.Graffiti[:]...)
 	e.log.mu.Unlock()
-	if e.in.Proposal == nil {
+	p := e.in.Proposal
+	switch _, then := e.sc.call("proposal"); then {
+	case "flip":
+		if p == nil {
+			p = &ProposalIn{Version: 5, Present: true, SlotOK: true}
+		} else {
+			p = nil
+		}
+	case "nil":
+		return &api.Response[*api.VersionedProposal]{Metadata: map[string]any{}}, nil
+	}
+	if p == nil {
 		return nil, errors.New("scripted proposal failure")
 	}
-	return &api.Response[*api.VersionedProposal]{Data: makeProposal(e.in.Proposal, opts), Metadata: map[string]any{}}, nil
+	return &api.Response[*api.VersionedProposal]{Data: makeProposal(p, opts), Metadata: map[string]any{}}, nil
 }
 
 // p1named is the proposal provider as a single beacon node that can be asked for its client.
 type p1named struct{ *p1env }
 
 func (e p1named) NodeClient(context.Context) (*api.Response[string], error) {
-	if e.in.NodeClient == "err" {
+	fail := e.in.NodeClient == "err"
+	switch _, then := e.sc.call("nodeclient"); then {
+	case "flip":
+		fail = !fail
+	case "nil":
+		return nil, nil
+	}
+	if fail {
 		return nil, errors.New("scripted node client failure")
 	}
 	return &api.Response[string]{Data: string(e.in.ClientName), Metadata: map[string]any{}}, nil
@@ -294,46 +373,15 @@ func proposalProvider(env *p1env) eth2client.ProposalProvider {
 	return env
 }
 
-func runPropose(t *testing.T, in *ProposeIn) result {
-	lg := &p1log{}
-	var panicked bool
-	var msg string
+// runProposeOps runs the proposals one after the other on ONE proposer service (built from the first
+// input: which collaborators exist is decided at construction); before each proposal the mocks are
+// switched to that proposal's input, a fresh log and fresh call counters.  It stops at the first panic.
+func runProposeOps(t *testing.T, ops []*ProposeIn) (panics []bool, msgs []string, logs []*p1log) {
 	synctest.Test(t, func(t *testing.T) {
-		ctx, cancel := context.WithTimeout(context.Background(), 4*time.Second)
-		defer cancel()
-		env := &p1env{in: in, log: lg}
-		// The relay that returns the payload: the first unblinding relay of the selection the
-		// code should make (providers, or all providers when there are none / unblind-all).
-		first := func() uint64 {
-			cands := in.Providers
-			if len(cands) == 0 || in.UnblindAll {
-				cands = in.AllProviders
-			}
-			for _, p := range cands {
-				if p.Unblinds {
-					return p.ID
-				}
-			}
-			return ^uint64(0)
-		}
-		mk := func(ps []ProvIn) []builderclient.BuilderBidProvider {
-			out := make([]builderclient.BuilderBidProvider, 0, len(ps))
-			for _, p := range ps {
-				r := &p1relay{id: p.ID, in: in, log: lg, first: first}
-				if p.Unblinds {
-					out = append(out, p1unblinder{r})
-				} else {
-					out = append(out, r)
-				}
-			}
-			return out
-		}
-		if in.Auction == "res" {
-			env.res = &blockauctioneer.Results{Providers: mk(in.Providers), AllProviders: mk(in.AllProviders),
-				Participation: map[string]*blockauctioneer.Participation{}}
-		}
+		base := ops[0]
+		env := &p1env{in: base, log: &p1log{}, sc: &again{}}
 		level := zerolog.Disabled
-		if in.Trace {
+		if base.Trace {
 			level = zerolog.TraceLevel
 		}
 		params := []standardproposer.Parameter{
@@ -347,27 +395,79 @@ func runPropose(t *testing.T, in *ProposeIn) result {
 			standardproposer.WithRANDAORevealSigner(env),
 			standardproposer.WithBeaconBlockSigner(env),
 			standardproposer.WithBlobSidecarSigner(env),
-			standardproposer.WithUnblindFromAllRelays(in.UnblindAll),
+			standardproposer.WithUnblindFromAllRelays(base.UnblindAll),
 			standardproposer.WithBuilderBoostFactor(100),
 		}
-		if in.Graffiti != "none" {
+		if base.Graffiti != "none" {
 			params = append(params, standardproposer.WithGraffitiProvider(env))
 		}
-		if in.Auction != "none" {
+		if base.Auction != "none" {
 			params = append(params, standardproposer.WithBlockAuctioneer(env))
 		}
-		svc, err := standardproposer.New(ctx, params...)
+		svc, err := standardproposer.New(context.Background(), params...)
 		if err != nil {
 			t.Fatalf("proposer constructor: %v", err)
 		}
-		duty := beaconblockproposer.NewDuty(proposeSlot, 1)
-		duty.SetAccount(p1account{})
-		duty.SetRandaoReveal(phase0.BLSSignature{1})
-		panicked, msg = catch(func() { svc.Propose(ctx, duty) })
-		cancel()
-		synctest.Wait()
+		for k, in := range ops {
+			lg := &p1log{}
+			sc := &again{then: in.Then}
+			env.in, env.log, env.sc, env.res = in, lg, sc, nil
+			// The relay that returns the payload: the first unblinding relay of the selection the
+			// code should make (providers, or all providers when there are none / unblind-all).
+			first := func() uint64 {
+				cands := in.Providers
+				if len(cands) == 0 || in.UnblindAll {
+					cands = in.AllProviders
+				}
+				for _, p := range cands {
+					if p.Unblinds {
+						return p.ID
+					}
+				}
+				return ^uint64(0)
+			}
+			mk := func(ps []ProvIn) []builderclient.BuilderBidProvider {
+				out := make([]builderclient.BuilderBidProvider, 0, len(ps))
+				for _, p := range ps {
+					r := &p1relay{id: p.ID, in: in, log: lg, first: first, sc: sc}
+					if p.Unblinds {
+						out = append(out, p1unblinder{r})
+					} else {
+						out = append(out, r)
+					}
+				}
+				return out
+			}
+			if in.Auction == "res" {
+				env.res = &blockauctioneer.Results{Providers: mk(in.Providers), AllProviders: mk(in.AllProviders),
+					Participation: map[string]*blockauctioneer.Participation{}}
+			}
+			ctx, cancel := context.WithTimeout(context.Background(), 4*time.Second)
+			duty := beaconblockproposer.NewDuty(proposeSlot+phase0.Slot(k), 1)
+			duty.SetAccount(p1account{})
+			duty.SetRandaoReveal(phase0.BLSSignature{1})
+			panicked, msg := catch(func() { svc.Propose(ctx, duty) })
+			cancel()
+			synctest.Wait()
+			panics, msgs, logs = append(panics, panicked), append(msgs, msg), append(logs, lg)
+			if panicked {
+				break
+			}
+		}
 	})
+	return panics, msgs, logs
+}
 
+func runPropose(t *testing.T, in *ProposeIn) result {
+	panics, msgs, logs := runProposeOps(t, []*ProposeIn{in})
+	res, rec, tr := proposeResult(in, logs[0], panics[0], msgs[0])
+	res.inTerm = App("IPropose", rec)
+	res.obsTerm = App("OPropose", Bool(panics[0]), tr)
+	return res
+}
+
+// proposeResult: the input record and the observed trace of one proposal as terms, with its counters.
+func proposeResult(in *ProposeIn, lg *p1log, panicked bool, msg string) (result, string, string) {
 	lg.mu.Lock()
 	defer lg.mu.Unlock()
 	graffiti := lg.graffiti
@@ -415,12 +515,12 @@ func runPropose(t *testing.T, in *ProposeIn) result {
 	case "name":
 		nc = App("NCName", bytesTerm(in.ClientName))
 	}
-	inTerm := App("IPropose", Record("p1_graffiti", g, "p1_node_client", nc, "p1_auction", a, "p1_proposal", p, "p1_sign_ok", Bool(in.SignOK),
-		"p1_unblind_all", Bool(in.UnblindAll), "p1_unblind_ok", Bool(in.UnblindOK), "p1_submit_ok", Bool(in.SubmitOK)))
-	obsTerm := App("OPropose", Bool(panicked), Record("t_graffiti", bytesTerm(graffiti), "t_signed", Bool(lg.signed),
-		"t_unblind", nlist(unb), "t_submitted", Bool(lg.submitted)))
+	rec := Record("p1_graffiti", g, "p1_node_client", nc, "p1_auction", a, "p1_proposal", p, "p1_sign_ok", Bool(in.SignOK),
+		"p1_unblind_all", Bool(in.UnblindAll), "p1_unblind_ok", Bool(in.UnblindOK && in.UnblindFailures < 3), "p1_submit_ok", Bool(in.SubmitOK))
+	tr := Record("t_graffiti", bytesTerm(graffiti), "t_signed", Bool(lg.signed),
+		"t_unblind", nlist(unb), "t_submitted", Bool(lg.submitted))
 
-	res := result{inTerm: inTerm, obsTerm: obsTerm,
+	res := result{
 		obs: Observed{Panic: panicked, Message: msg, Detail: map[string]any{"graffiti": graffiti, "signed": lg.signed, "unblind": unb, "submitted": lg.submitted}}}
 	blinded := in.Proposal != nil && in.Proposal.Blinded
 	if in.Proposal != nil && in.Proposal.Version == 5 && !in.Proposal.Blinded && !in.Proposal.Present {
@@ -459,13 +559,19 @@ func runPropose(t *testing.T, in *ProposeIn) result {
 		}
 	}
 	res.counts = append(res.counts, "graffiti:"+in.Graffiti, "auction:"+in.Auction)
+	if in.Then != "" {
+		res.counts = append(res.counts, "later-calls:"+in.Then)
+	}
+	if blinded && in.Auction == "res" && in.UnblindFailures > 0 {
+		res.counts = append(res.counts, fmt.Sprintf("relay-fails-%d-times-first", in.UnblindFailures))
+	}
 	if in.Graffiti == "bytes" && strings.Contains(string(in.GraffitiData), "{{CLIENT}}") {
 		res.counts = append(res.counts, "client-template:node-client-"+map[string]string{"": "not", "not": "not", "err": "err", "name": "name"}[in.NodeClient])
 		if in.NodeClient == "name" {
 			res.nontrivial = true
 		}
 	}
-	return res
+	return res, rec, tr
 }
 
 // ---------------------------------------------------------------------------------------------
@@ -541,5 +647,10 @@ func genPropose(r *Rand) *ProposeIn {
 		in.Proposal = p
 	}
 	in.Trace = r.Chance(1, 8)
+	// what the providers answer when asked again, and relays that fail before they answer
+	in.Then = []string{"", "flip", "flip", "nil"}[r.Intn(4)]
+	if r.Chance(1, 2) {
+		in.UnblindFailures = r.Range(1, 4)
+	}
 	return in
 }
